@@ -176,15 +176,17 @@ def main(argv=None):
     # second chance for obligations that were neither proved nor refuted (solver timeouts under machine load must not flip a
     # verdict): the tasks concerned are re-run a few at a time with a 5x budget
     retry = [i for i, r in enumerate(results) if any(o["verdict"] == "undecided" for o in r["obligations"]) or
-             (r["error"] or "").startswith("TIMEOUT")]
+             _is_timeout(r["error"])]
     if retry and not os.environ.get("VERIF_NO_RETRY"):
         b2 = dict(budget)
         b2.update(z3_ms=budget["z3_ms"] * 5, polyid_s=budget["polyid_s"] * 3, cvc5_s=budget["cvc5_s"] * 3, scale=budget.get("scale", 1) * 3)
         name2job = {}
         for j in jobs:
             name2job[(j[0], packs[j[0]].tasks[j[1]].name)] = j
-        rjobs = [(name2job[(results[i]["pack"], results[i]["task"])][0], name2job[(results[i]["pack"], results[i]["task"])][1], prop, b2)
-                 for i in retry]
+        # a task that ran out of time (normally seconds) is re-run with its own time limit: a hang is not a matter of budget
+        b1 = dict(b2, scale=budget.get("scale", 1))
+        rjobs = [(name2job[(results[i]["pack"], results[i]["task"])][0], name2job[(results[i]["pack"], results[i]["task"])][1], prop,
+                  b1 if _is_timeout(results[i]["error"]) else b2) for i in retry]
         os.environ["VERIF_OBL_PAR"] = "2"
         redo = run_jobs(rjobs, min(4, len(rjobs)), packs)
         for i, r2 in zip(retry, redo):
@@ -196,6 +198,12 @@ def main(argv=None):
             results[i] = r2
     results.sort(key=lambda r: (r["pack"], r["task"]))
     return finish(prop, tier, seed, packs, results, t0, a)
+
+
+def _is_timeout(err):
+    """a task that ran out of time (soft limit, hard kill) -- as opposed to one the engine cannot apply to the code any more"""
+    e = (err or "")
+    return e.startswith("TIMEOUT") or "TimeoutError" in e or "HARD TIMEOUT" in e or "task timeout" in e
 
 
 def _warm(f):
@@ -252,6 +260,10 @@ def finish(prop, tier, seed, packs, results, t0, a):
     # contract, local the contract reads has disappeared, time-out) means: the obligations this task discharged on the
     # unchanged tree can no longer be established for the current code.  Reported as the failed obligation
     # `<task>.contract_applies_to_current_code` (never with a failing input); the replay file carries the engine's output.
+    # A time-out is NOT a verdict about the code (solver / scheduler behaviour; it was retried once with a larger budget above):
+    # the task's obligations were not explored in this run.  It is listed in the evidence and printed, never reported as a violation.
+    not_explored = [(t_, e_, tr_) for (t_, e_, tr_) in errors if _is_timeout(e_)]
+    errors = [(t_, e_, tr_) for (t_, e_, tr_) in errors if not _is_timeout(e_)]
     for (tname, err, tr) in errors:
         violations.append({"name": "%s.%s.contract_applies_to_current_code" % (prop, tname), "verdict": "undecided",
                            "backend": "engine", "detail": "%s\n%s" % (err, tr[-3000:] if tr else ""), "model": None,
@@ -345,7 +357,9 @@ def finish(prop, tier, seed, packs, results, t0, a):
                                      "disagreed": sum(1 for o in obls if "cvc5 sat" in str(o.get("second_opinion")))},
             "known_findings_failing": [o["name"] for (o, k) in known_hit],
             "not_discharged": [{"obligation": o["name"], "verdict": o["verdict"], "detail": o["detail"][:200]} for o in violations],
-            "task_errors": [{"task": t, "error": e} for (t, e, _tr) in errors],
+            "task_errors": [{"task": t, "error": e} for (t, e, _tr) in errors] +
+                           [{"task": t, "error": "NOT EXPLORED in this run (time limit, also after one retry with a larger budget): " + e}
+                            for (t, e, _tr) in not_explored],
             "bounded_checks": bounded,
             "not_decided": notdec,
             "samples": samples,
@@ -362,6 +376,8 @@ def finish(prop, tier, seed, packs, results, t0, a):
         json.dump(ev, open(os.path.join(ROOT, "evidence", prop + ".json"), "w"), indent=1, default=str)
     for ln in lines:
         print(ln)
+    for (t, e, _tr) in not_explored:
+        print("NOT-EXPLORED: property=%s task %s ran out of time twice (%s); its obligations are not counted" % (prop, t, e[:80]))
     print("%s: %d obligations, %d discharged, %d known findings, %d not discharged, %d task errors, %.1fs" %
           (prop, len(obls), len(proved), len(known_hit), len(violations), len(errors), time.time() - t0))
     if a.v or errors:
